@@ -69,6 +69,9 @@ type Env struct {
 	// Cancellable gives every request a context that CancelRequest can cancel from inside a storage call (the
 	// client goes away at that very moment).
 	Cancellable bool
+	// ExtraQuery / ExtraHeaders are added to every request (parameters and headers nobody asked for).
+	ExtraQuery   string
+	ExtraHeaders map[string]string
 }
 
 type cancelKey struct{}
@@ -198,7 +201,16 @@ func (e *Env) Do(rq Req) *Call {
 	if tag == "" {
 		tag = fmt.Sprintf("%st%d", e.Name, e.tagN.Add(1))
 	}
+	if e.ExtraQuery != "" {
+		if rq.Query != "" {
+			rq.Query += "&"
+		}
+		rq.Query += e.ExtraQuery
+	}
 	h := http.Header{}
+	for k, v := range e.ExtraHeaders {
+		h.Set(k, v)
+	}
 	for k, vs := range rq.Headers {
 		for _, v := range vs {
 			h.Add(k, v)
